@@ -723,6 +723,9 @@ KNOWN_REPLAYS = [
 ]
 
 
+REGISTERED = {}     # findings of known_findings.json that name C02 (filled by run)
+
+
 def evaluate(cases, seeds_of, tag="c02", shard=200):
     """-> (verdicts per case [(good, fail|None) per seed], texts per case, rows per case)"""
     inputs, where, texts_of = [], [], []
@@ -768,6 +771,8 @@ def run(res, tier, seed):
     cases = gen_cases(r, n)
     seeds_of = [[r.randrange(1, 1 << 30) for _ in range(nseeds)] for _ in cases]
     verdicts, texts_of, rows_of, terms = evaluate(cases, seeds_of)
+    REGISTERED.clear()
+    REGISTERED.update({f["key"]: f for f in common.known_for(PID)})
 
     hist_len, ctor, kinds, fail_kinds = {}, {}, {}, {}
     steps_ok = cut = 0
@@ -788,7 +793,7 @@ def run(res, tier, seed):
                 cut += 1
                 continue
             fail_kinds[kind] = fail_kinds.get(kind, 0) + 1
-            if flagged and kind != 1:
+            if flagged and kind != 1 and "paren-lead-ne-truncated" in REGISTERED:
                 attributed += 1
             else:
                 failures.append((ci, j, step, kind))
@@ -831,14 +836,17 @@ def run(res, tier, seed):
         st = (row.get("steps") or [{}])[-1]
         got = go_value(st.get("val")) if st.get("ok") else "error: " + str(st.get("err") or st.get("perr") or row.get("fatal") or "?")
         if got != want:
-            what = registered[key]["what"] if key in registered else FINDINGS[key]
-            res.known(f"key={key} input={json.dumps(srcs, ensure_ascii=False)} documented={want} implementation={got} :: {what}")
-            if key not in registered:
+            if key in registered:
+                res.known(f"key={key} input={json.dumps(srcs, ensure_ascii=False)} documented={want} implementation={got} :: {registered[key]['what']}")
+            else:
+                # not (or no longer) a recorded finding: a repaired defect that came back, or a new one
                 unregistered.append(key)
+                res.violation({"what": "evaluation disagrees with the definitional semantics (regression replay)", "key": key, "sources": srcs,
+                               "documented": want, "implementation": got, "about": FINDINGS[key]})
     if attributed:
         res.known(f"key=paren-lead-ne-truncated generated histories containing a `(...) !=` at the start of an expression whose comparison "
                   f"fails for that reason: {attributed}")
-    res.cov["known_keys_not_yet_in_known_findings_json"] = unregistered
+    res.cov["regression_replays_failing_without_a_recorded_finding"] = unregistered
 
     # ---- proofs
     try:
